@@ -22,6 +22,9 @@ Oracle:
   * notifyFinish: every Deferred obtained while its request was in progress fires exactly once —
     with None, not before finish() was called, if the response finished before the connection was
     lost; with a Failure, not before the loss, otherwise;
+  * bounded progress (runs without an injected loss): once every transport pause has been matched by a resume
+    and the scheduler has run, every request the client completely sent has been handed over and answered,
+    unless an earlier request never finishes by plan, closes the connection, or is non-persistent;
   * no exception reaches the application or the transport except the documented
     `RuntimeError` of `finish()` after the connection was lost.
 
@@ -53,7 +56,7 @@ ENGINE = "E2-netsim"
 TECHNIQUE = "runtime monitoring: event-order oracle over process/finish/notifyFinish/wire bytes with connection loss injected at every schedule boundary"
 RULE = ("random schedules: 1-6 pipelined requests (GET/HEAD/POST with Content-Length or chunked body, optional Connection: close / "
         "HTTP/1.0, optionally one stray blank line before a request / between two pipelined requests) cut into random segments, interleaved with scheduler steps, transport pause/resume and extra notifyFinish "
-        "calls; per request the application finishes at once / after k steps (maybe after a partial write) / never and takes "
+        "calls, plus two fixed pipelines paused by the transport after every byte offset (and again 7 bytes later); per request the application finishes at once / after k steps (maybe after a partial write) / never and takes "
         "0-3 notifyFinish Deferreds; for each schedule one run per operation boundary with the connection lost there.  A case is "
         "distinct by (schedule, plans, loss point); non-trivial = at least one request was handed to the application.")
 ASSUMPTIONS = ["trusted base: netsim.SimTransport (write after loss is dropped; pause/resume of the registered streaming producer) and "
@@ -66,7 +69,8 @@ FLOORS = {"runs": 5000, "process_events": 5000, "notify_fired_ok": 2000, "notify
           "app_loseconnection_calls": 200, "producer_requests": 1000, "producer_stop_calls": 300, "finish_inside_stopproducing": 100,
           "finish_inside_resumeproducing": 50, "producer_resumed_by_transport": 100, "notify_kind_raises": 500, "notify_kind_paused": 500,
           "notify_kind_chained": 500, "bodiless_responses_on_wire_checked": 500, "expect_100_requests_processed": 300,
-          "runs_unjudged_after_app_exception": 100}
+          "runs_unjudged_after_app_exception": 100, "progress_runs_judged": 1000, "progress_requests_answered": 2000,
+          "pauses_while_request_partially_received": 1000, "pauses_between_requests": 300, "pause_at_every_offset_runs": 1000}
 READY = True
 
 
@@ -472,6 +476,9 @@ class World:
                 elif kind == "pause":
                     if not self.lost and srv.transport.producer is not None:
                         self.ctx.count("pause_ops")
+                        ch = getattr(srv.proto, "_channel", None)  # read only to label the counter
+                        if ch is not None and not ch._handlingRequest:
+                            self.ctx.count("pauses_while_request_partially_received" if ch.requests else "pauses_between_requests")
                         srv.transport.sim_pause_producer()
                 elif kind == "resume":
                     if not self.lost and srv.transport.producer is not None:
@@ -491,6 +498,8 @@ class World:
                 else:
                     self.bad("exception-from-channel", "dataReceived raised", error=srv.exception, op_index=i)
                 srv.exception = None
+        if self.loss_at >= len(self.ops):
+            self.settle()
         self.lose()  # the boundary after the last operation
         # requests that the plan finishes even after the loss get their chance (finish() must raise RuntimeError)
         for _ in range(5):
@@ -507,6 +516,50 @@ class World:
                 self.ctx.count("unjudged_notify_never_fired_after_app_exception", stranded)
             return
         self.judge()
+
+    # ---- bounded progress
+    def settle(self):
+        """No loss was injected: match every transport pause with a resume, let the scheduler run, and require that
+        every complete request the client sent has been dispatched and answered (logical steps, no clock)."""
+        srv = self.server
+        if self.lost or self.unjudged is not None:
+            return
+        try:
+            for _ in range(40):
+                t = srv.transport
+                if not self.lost and t.producer is not None and t.producer_paused:
+                    t.sim_resume_producer()
+                srv._drain_held()
+                self.step()
+                if srv.exception:
+                    self.bad("exception-from-channel", "dataReceived raised", error=srv.exception)
+                    srv.exception = None
+                    return
+                if self.lost or self.unjudged is not None:
+                    break
+        except (AppError, AppAbort):
+            return
+        if self.unjudged is not None:
+            return
+        self.ctx.count("progress_runs_judged")
+        # which requests must have been dispatched / answered by now
+        for k, (rq, plan) in enumerate(zip(self.reqs, self.plans)):
+            app = self.apps[k] if k < len(self.apps) else None
+            if app is None:
+                self.bad("no-progress-request-not-dispatched", "request %d was completely delivered, every transport pause was resumed and all earlier "
+                         "responses finished, but it was never handed to the application" % k, k=k, dispatched=len(self.apps),
+                         held_bytes=sum(len(x) for x in srv.held), reading_paused=srv.transport.reading_paused, lost=self.lost)
+                return
+            self.ctx.count("progress_requests_dispatched")
+            if plan.mode == "never" or plan.app_lose is not None:
+                return  # blocks the pipeline by design / closes the connection itself
+            if not app["finished"]:
+                self.bad("no-progress-request-not-answered", "request %d was dispatched and its plan finishes within a few scheduler steps, but no response was finished" % k,
+                         k=k, plan=plan.as_dict(), finish_raised=app["finish_raised"], lost=self.lost)
+                return
+            self.ctx.count("progress_requests_answered")
+            if rq["closing"]:
+                return  # the server closes after this one
 
     # ---- verdict
     def judge(self):
@@ -623,8 +676,53 @@ def run_schedule(ctx, i, only_loss_at=None):
     return w, ops, plans, b
 
 
+def plain_plan(mode="now", delay=1):
+    import random
+
+    p = Plan(random.Random(0))
+    p.mode, p.delay, p.partial, p.n_notify_at_process, p.use_cl, p.pieces = mode, delay, False, 1, True, 1
+    p.code, p.trigger, p.app_lose, p.raises, p.notify_kinds = 200, "steps", None, None, ["plain"] * 3
+    return p
+
+
+PAUSE_PIPELINES = [
+    [b"GET /r0 HTTP/1.1\r\nHost: h\r\n\r\n", b"POST /r1 HTTP/1.1\r\nHost: h\r\nContent-Length: 8\r\n\r\nabcdefgh", b"GET /r2 HTTP/1.1\r\nHost: h\r\n\r\n"],
+    [b"POST /r0 HTTP/1.1\r\nHost: h\r\nTransfer-Encoding: chunked\r\n\r\n4\r\nabcd\r\n3;x=y\r\nefg\r\n0\r\nT: v\r\n\r\n", b"\r\nHEAD /r1 HTTP/1.1\r\nHost: h\r\n\r\n",
+     b"POST /r2 HTTP/1.1\r\nHost: h\r\nExpect: 100-continue\r\nContent-Length: 2\r\n\r\nhi"],
+]
+
+
+def pause_at_every_offset(ctx):
+    """The transport pauses the channel (send buffer full) after exactly c bytes of the stream — mid request line, mid
+    headers, mid body, mid chunk, between pipelined requests — the rest arrives while paused (held by the driver, as
+    a transport that stopped reading does), then the transport resumes.  Judged by the bounded-progress rule."""
+    n = 0
+    for pi, parts in enumerate(PAUSE_PIPELINES):
+        stream = b"".join(parts)
+        reqs = [{"method": p.lstrip(b"\r\n").split(b" ")[0], "closing": False, "bytes": p, "stray_crlf_before": p.startswith(b"\r\n")} for p in parts]
+        for variant, plans in enumerate(([plain_plan("now") for _ in parts], [plain_plan("later", 2)] + [plain_plan("now") for _ in parts[1:]],
+                                         [plain_plan("now"), plain_plan("later", 1), plain_plan("now")])):
+            for c in range(0, len(stream) + 1):
+                n += 1
+                if not ctx.owns(n):
+                    continue
+                for second_cut in (None, min(len(stream), c + 7)):
+                    if second_cut is None:
+                        ops = [("data", stream[:c]), ("pause",), ("data", stream[c:]), ("step",), ("resume",), ("step",), ("step",)]
+                    else:  # pause, resume, and pause/resume again a little later
+                        ops = [("data", stream[:c]), ("pause",), ("data", stream[c:second_cut]), ("resume",), ("pause",), ("data", stream[second_cut:]),
+                               ("step",), ("resume",), ("step",)]
+                    ops = [op for op in ops if op[0] != "data" or op[1]]
+                    with LogCapture() as cap:
+                        w = run_one(ctx, reqs, ops, plans, len(ops), cap, ("pause-offset", pi, variant, c), False)
+                    ctx.count("pause_at_every_offset_runs")
+                    if w.problems:
+                        return
+
+
 def run(ctx):
     refhttp.selftest()
+    pause_at_every_offset(ctx)
     for i in ctx.cases(1000, 40000):
         w, ops, plans, b = run_schedule(ctx, i)
         if i < 2 * ctx.nshards and ctx.shard == 0:
@@ -634,6 +732,10 @@ def run(ctx):
 def replay(ctx, w):
     """Schedules are a pure function of (seed, case index): regenerate and re-run the recorded loss point."""
     x = w["witness"]
+    if isinstance(x.get("case_index"), list):
+        print("replay: this case belongs to the enumerated pause-at-every-offset family; re-run the check (it is deterministic)")
+        pause_at_every_offset(ctx)
+        return
     if x.get("case_index") is None:
         print("replay: witness has no case index; re-run with VERIF_SEED=%s" % w.get("seed"))
         return
